@@ -43,6 +43,13 @@ def wl_heavy(ctx, rng, case):
     width, depth = rng.choice([1, 2, 3, 4, 5, 50]), rng.randint(1, 3)
     if rng.random() < 0.25:
         width, depth = rng.randint(1, 70), rng.randint(1, 6)
+    many = case.index % 12 == 5
+    if many:
+        # BIG tables: 5 .. 80 hitters (every size is drawn somewhere) over a universe a third larger, on a roomy sketch so that estimates differ
+        H = rng.choice([rng.randint(5, 80), 16, 31, 32, 33, 48, 64])
+        keys = [f"hk{i}" for i in range(int(H * rng.choice([1.3, 2, 3])) + 4)]
+        width, depth = rng.choice([200, 1000, 5000]), rng.randint(2, 4)
+        ctx.count("heavy.histories_with_many_hitters")
     hname, hf = gen.pick_hash(rng, keys)
     case.desc = {"kind": "heavy", "hitters": H, "width": width, "depth": depth, "hash": hname, "n_keys": len(keys)}
     ctx.observe("widths", width)
@@ -60,7 +67,7 @@ def wl_heavy(ctx, rng, case):
     # how often the table is READ: after every call, or only after every 2nd..5th (several table-changing calls between two reads)
     every = rng.choice([1, 1, 1, 2, 3, 5])
     case.desc["table_read_every"] = every
-    n_steps = rng.randint(5, 60)
+    n_steps = rng.randint(5, 60) if not many else rng.randint(8 * H, 30 * H)
     if rng.random() < 0.04:
         # the element total is driven to its 64-bit limit first: later additions leave it unchanged while the table keeps changing
         k0 = rng.choice(keys)
@@ -70,6 +77,8 @@ def wl_heavy(ctx, rng, case):
     for step in range(n_steps):
         bl.noise_reads(ctx, rng, hh, keys)
         r = rng.random()
+        if many and not 0.05 <= r < 0.93 and rng.random() < 0.9:
+            r = 0.5  # (big tables live long: refusals, clears and reloads are ten times rarer there)
         if r < 0.05:
             # an addition the sketch REFUSES (an amount that is no integer, a hash list deeper than the sketch): no estimate is returned, so
             # the table still follows the most recent estimates that WERE returned - now and through every later addition
@@ -90,7 +99,16 @@ def wl_heavy(ctx, rng, case):
                     ctx.count("heavy.refused_additions_while_the_table_is_filling")
         elif r < 0.93:
             k = rng.choice(keys)
-            n = rng.choice([1, 1, 1, 2, 3, 10]) if rng.random() < 0.93 else 0  # an add of nothing still returns an estimate the table must follow
+            n = rng.choice([1, 1, 1, 2, 3, 10] if not many else [1, 1, 1, 1, 1, 2]) if rng.random() < 0.93 else 0  # an add of nothing still returns an estimate the table must follow
+            if many:
+                # big tables: first the residents arrive (one add each, a few light ones among many heavy ones), then newcomers climb in
+                # RUNS of single additions (the same key several times in a row), meeting the lightest tracked keys again and again
+                if step < H:
+                    k, n = keys[step], (rng.choice([2, 3, 4]) if step == 0 else rng.choice([6, 7, 8]) if step == 1 else rng.choice([10, 10, 10, 12, 9]))
+                elif step > H and rng.random() < 0.6 and case.ops and case.ops[-1][0] in ("add", "add_alt"):
+                    k, n = case.ops[-1][1], 1
+                else:
+                    k, n = rng.choice(keys[H:] + keys[:3]), 1
             was_tracked = set(hh.heavy_hitters) if every == 1 else set()
             if rng.random() < 0.85:
                 case.op("add", k, n)
